@@ -3,7 +3,9 @@ Proof: coq/Props/C11.v (all item-definition trees, all values; on the values/typ
 Correspondence: generated DMN documents (item definitions of every kind to depth 3, over the eight simple types, with and
 without allowed values) loaded by dmntk_model::parse + ModelEvaluator::new and driven through evaluate_invocable:
  * input side  — an echo decision `e_i` returns its typed input `x_i`, so its result is what reached the decision logic;
- * output side — a decision `o_j` (and a knowledge model `b_j`, a decision service `s_j`) with a typed output variable whose logic is a literal value.
+ * output side — a decision `o_j` (and a knowledge model `b_j`, a decision service `s_j`) with a typed output variable whose logic is a literal value;
+   the typed knowledge models and services are also invoked from untyped decisions: `ib_j` / `is_j` through a boxed <invocation>, `fb_j` / `fs_j`
+   by a FEEL call, `cb_j` through a boxed invocation inside a boxed context (the coercion to the callee's output type happens at each of these sites).
 Each case is run through the implementation, the per-copy ImplModel (var_eval / output_value) and the Spec
 (input_spec; the proved coercion laws), compared three-way as DESIGN.md §2 prescribes."""
 import json
@@ -93,6 +95,17 @@ def tref_attr(r):
     return ' typeRef="%s"' % r[1]
 
 
+def invocation_xml(fname, binds):
+    return ('<invocation><literalExpression><text>%s</text></literalExpression>' % fname +
+            ''.join('<binding><parameter name="%s"/><literalExpression><text>%s</text></literalExpression></binding>' % (p, esc(lit(x))) for p, x in binds) + '</invocation>')
+
+
+def invoker_xml(name, fid, logic):
+    """an untyped decision that requires the knowledge model / decision service fid and whose logic invokes it"""
+    return ('<decision name="%s" id="d%s"><variable name="%s"/><knowledgeRequirement><requiredKnowledge href="#%s"/></knowledgeRequirement>%s</decision>'
+            % (name, name, name, fid, logic))
+
+
 XHEAD = '<?xml version="1.0" encoding="UTF-8"?><definitions namespace="ns1" name="m1" id="d1" xmlns="https://www.omg.org/spec/DMN/20191111/MODEL/">'
 
 
@@ -109,12 +122,21 @@ def model_xml(m, rng):
         for v in vals:
             parts.append('<decision name="o%d" id="do%d"><variable name="o%d"%s/><literalExpression><text>%s</text></literalExpression></decision>'
                          % (j, j, j, tref_attr(r), esc(lit(v))))
-            if j % 3 == 1:      # the same result type on a knowledge model
-                parts.append('<businessKnowledgeModel name="b%d" id="db%d"><variable name="b%d"%s/><encapsulatedLogic><literalExpression><text>%s</text></literalExpression></encapsulatedLogic></businessKnowledgeModel>'
-                             % (j, j, j, tref_attr(r), esc(lit(v))))
-            if j % 3 == 2:      # ... and on a decision service over an untyped decision
+            if j % 3 == 1:      # the same result type on a knowledge model (every other one takes the value as its parameter q) ...
+                par = j % 2 == 0
+                parts.append('<businessKnowledgeModel name="b%d" id="db%d"><variable name="b%d"%s/><encapsulatedLogic>%s<literalExpression><text>%s</text></literalExpression></encapsulatedLogic></businessKnowledgeModel>'
+                             % (j, j, j, tref_attr(r), '<formalParameter name="q"/>' if par else '', 'q' if par else esc(lit(v))))
+                # ... invoked from UNTYPED decisions (nothing masks what the invocation hands back): through a boxed invocation, by a FEEL call,
+                # and through a boxed invocation that is the entry `a` of a boxed context
+                parts.append(invoker_xml('ib%d' % j, 'db%d' % j, invocation_xml('b%d' % j, [('q', v)] if par else [])))
+                parts.append(invoker_xml('fb%d' % j, 'db%d' % j, '<literalExpression><text>%s</text></literalExpression>' % esc('b%d(%s)' % (j, lit(v) if par else ''))))
+                if j % 6 == 1:
+                    parts.append(invoker_xml('cb%d' % j, 'db%d' % j, '<context><contextEntry><variable name="a"/>%s</contextEntry></context>' % invocation_xml('b%d' % j, [])))
+            if j % 3 == 2:      # ... and on a decision service over an untyped decision, evaluated directly and invoked from untyped decisions in the same ways
                 parts.append('<decision name="u%d" id="du%d"><variable name="u%d"/><literalExpression><text>%s</text></literalExpression></decision>' % (j, j, j, esc(lit(v))))
                 parts.append('<decisionService name="s%d" id="ds%d"><variable name="s%d"%s/><outputDecision href="#du%d"/></decisionService>' % (j, j, j, tref_attr(r), j))
+                parts.append(invoker_xml('is%d' % j, 'ds%d' % j, invocation_xml('s%d' % j, [])))
+                parts.append(invoker_xml('fs%d' % j, 'ds%d' % j, '<literalExpression><text>s%d()</text></literalExpression>' % j))
             j += 1
     parts.append('</definitions>')
     return ''.join(parts)
@@ -524,11 +546,17 @@ def run_models(ctx, models, tagbase='c'):
                 calls.append(['o%d' % j, '{}'])
                 idx.append(('out', j, r, v))
                 if j % 3 == 1:
-                    calls.append(['b%d' % j, '{}'])
+                    calls.append(['b%d' % j, '{q: %s}' % lit(v) if j % 2 == 0 else '{}'])
                     idx.append(('out-bkm', j, r, v))
+                    for pre, kind in (('ib', 'out-bkm-boxed-invocation'), ('fb', 'out-bkm-feel-call')) + ((('cb', 'out-bkm-boxed-invocation-in-context'),) if j % 6 == 1 else ()):
+                        calls.append(['%s%d' % (pre, j), '{}'])
+                        idx.append((kind, j, r, v))
                 if j % 3 == 2:
                     calls.append(['s%d' % j, '{}'])
                     idx.append(('out-svc', j, r, v))
+                    for pre, kind in (('is', 'out-svc-boxed-invocation'), ('fs', 'out-svc-feel-call')):
+                        calls.append(['%s%d' % (pre, j), '{}'])
+                        idx.append((kind, j, r, v))
                 j += 1
         reqs.append({'xml': xmls[mi], 'calls': calls})
         index.append(idx)
@@ -617,6 +645,10 @@ def judge(ctx, models, xmls, recs, stats):
                           case_of(models, xmls, rec), impl=ri, model={'impl_model': repr(im), 'spec': repr(sp)})
         else:
             om = term_val(rec['model'][0])
+            if rec['kind'].endswith('-in-context') and got is not None and got[0] == 'c' and len(got[1]) == 1 and got[1][0][0] == 1:
+                got = got[1][0][1]                    # the invocation is the entry `a` of a boxed context: judge the entry
+            elif rec['kind'].endswith('-in-context'):
+                got = ('?', json.dumps(ri['v']))
             if not rec['model'][2] and not any(b.startswith('fuel') for b in ctx.broken):
                 ctx.broken.append('fuel %d does not cover the declared type of a generated output variable (C11_var_type_fuel_sufficient does not apply): %s' % (FUEL, tref_attr(r)))
             stats[rec['kind']] = stats.get(rec['kind'], 0) + 1
@@ -627,8 +659,11 @@ def judge(ctx, models, xmls, recs, stats):
             ctx.corr_checked += 1
             if ci == 'other' or got != om:
                 # output_value is proved to be identity / wrap / unwrap / null exactly as the property words it
+                how = {'out': 'decision', 'out-bkm': 'knowledge model, evaluated directly', 'out-svc': 'decision service, evaluated directly'}.get(rec['kind']) or \
+                    '%s invoked from the untyped decision %s %s' % ('knowledge model' if '-bkm-' in rec['kind'] else 'decision service', rec['call'][0],
+                                                                     rec['kind'].split('-', 2)[2].replace('-', ' ').replace('boxed', 'through a boxed').replace('feel call', 'by a FEEL call'))
                 ctx.violation('output variable (%s) of declared type %s: result %s was returned as %s, the property prescribes %s (%s)'
-                              % (rec['kind'], tref_attr(r).strip() or '(none)', lit(v), json.dumps(ri['v']), lit(om) if om is None or om[0] != '?' else om, cm),
+                              % (how, tref_attr(r).strip() or '(none)', lit(v), json.dumps(ri['v']), lit(om) if om is None or om[0] != '?' else om, cm),
                               case_of(models, xmls, rec), impl=ri, model={'output_value': repr(om), 'var_type': repr(rec['model'][1])})
 
 
@@ -671,7 +706,10 @@ def run(ctx):
              'nulls, lists and contexts; every kind {referenced, collection-of-referenced, component, collection-of-component} around each of these (depth 2); kind around kind around leaf '
              '(depth 3; sampled in the quick tier, all 16x%d in the thorough tier); multi-field components of mixed kinds; the 8 direct typeRef arms of the variable evaluator. '
              'Values: one conforming value per type and every variant of it with exactly one tree position replaced (null, atoms of other types, boundary payloads of the allowed values, '
-             'wrapped, missing / undeclared component, shorter / longer list). Output side: typed output variable over literal results (conforming, singleton-wrapped, unwrappable, foreign, null). '
+             'wrapped, missing / undeclared component, shorter / longer list). Output side: typed output variable (simple types, collections, components, references; untyped; a typeRef naming nothing) of a decision, '
+             'of a knowledge model (body = the literal, or = its parameter q bound to the literal) and of a decision service over results that conform / need the singleton wrap / the unwrap / are foreign / null; '
+             'every typed knowledge model and service is evaluated directly AND invoked from untyped decisions (whose own variable masks nothing): through a boxed invocation, by a FEEL call b(..) / s(), '
+             'and (every other knowledge model) through a boxed invocation that is an entry of a boxed context - each compared with output_value (= coerced_spec of the callee\'s declared type). '
              'non-trivial = a component-wise nulled result, a conforming structured value, or a wrap/unwrap coercion' % len(leaf_types()),
         extra_cov={'exhaustive': False, 'documents': len(models), 'histogram': stats},
         assumptions=['names a..e / t<n> stand for all names; payloads are small naturals (numbers) or identities (other simple types)',
@@ -702,5 +740,5 @@ def replay(ctx, path):
 
 MANIFEST = dict(
     technique='Coq proof (per-copy transliteration of the item-definition / variable / type closures, refinement to a generic Spec, conformance laws for all type trees and values, output coercion from C16) with model/code correspondence on generated DMN documents',
-    text='Theorems (coq/Props/C11.v, closed under the global context) for every item-definition tree (simple, referenced, component, collection-of each; allowed values; references followed with fuel) and every value: the 8+8+8+16 copy-pasted closures compute one generic function each; the per-copy model equals the Spec; conforming values pass unchanged; the result conforms (up to nulled components) or is null; checking is idempotent; a component type judges each component on its own; results are coerced to the output type as identity / wrap / unwrap / null (C16). The Spec `check` shares its arms with the per-copy model, so the content against an INDEPENDENT specification is separate (coq/C11/ConfModel.v: resolve = the type tree with references followed, defined iff the fuel covers it; conforms_to = conformance by recursion on the type, C16 type_of for simple types, allowed values, exactly the declared components, every item; spec; none mentions eval_item): a conforming value reaches the decision unchanged for every type (C11_eval_item_conforming_unchanged); for the types judged as a whole (simple, collection of simple, references to such) eval_item = the value if it conforms, else null (C11_eval_item_spec); that plain equation is FALSE for component types (C11_plain_equation_refuted: only the non-conforming component is nulled, as the property words it), and for every type eval_item = spec = conforming unchanged, else component-wise / item-wise, else null (C11_eval_item_spec_general); undeclared entries of a context are dropped, a context lacking a declared component is null as a whole, null conforms to nothing and stays null (C11_extra_entries_dropped, C11_extra_entries_result, C11_missing_component_null, C11_null_not_conforming, C11_null_stays_null; observed on the real code first). Fuel: once it covers the tree the resolved tree, the declared FEEL type and the output coercion are fuel-independent (C11_resolve_fuel_independent, C11_idef_type_declared, C11_var_type_fuel_sufficient, C11_output_fuel_sufficient); the declared type falls back to Any only when the chain of type references ends in an undefined name (C11_var_type_declared), below that fuel it silently becomes Any (C11_var_type_low_fuel), and the check evaluates the fuel condition for every generated input and output type; the output side is one equation (C11_output_spec, C16 coerced_spec). The check also evaluates spec on every input case. Tied to model-evaluator/src/builders/{item_definition,item_definition_type,mod,decision}.rs by evaluating generated documents (all kinds to depth 3, values conforming and violating at every tree position) through evaluate_invocable.',
+    text='Theorems (coq/Props/C11.v, closed under the global context) for every item-definition tree (simple, referenced, component, collection-of each; allowed values; references followed with fuel) and every value: the 8+8+8+16 copy-pasted closures compute one generic function each; the per-copy model equals the Spec; conforming values pass unchanged; the result conforms (up to nulled components) or is null; checking is idempotent; a component type judges each component on its own; results are coerced to the output type as identity / wrap / unwrap / null (C16). The Spec `check` shares its arms with the per-copy model, so the content against an INDEPENDENT specification is separate (coq/C11/ConfModel.v: resolve = the type tree with references followed, defined iff the fuel covers it; conforms_to = conformance by recursion on the type, C16 type_of for simple types, allowed values, exactly the declared components, every item; spec; none mentions eval_item): a conforming value reaches the decision unchanged for every type (C11_eval_item_conforming_unchanged); for the types judged as a whole (simple, collection of simple, references to such) eval_item = the value if it conforms, else null (C11_eval_item_spec); that plain equation is FALSE for component types (C11_plain_equation_refuted: only the non-conforming component is nulled, as the property words it), and for every type eval_item = spec = conforming unchanged, else component-wise / item-wise, else null (C11_eval_item_spec_general); undeclared entries of a context are dropped, a context lacking a declared component is null as a whole, null conforms to nothing and stays null (C11_extra_entries_dropped, C11_extra_entries_result, C11_missing_component_null, C11_null_not_conforming, C11_null_stays_null; observed on the real code first). Fuel: once it covers the tree the resolved tree, the declared FEEL type and the output coercion are fuel-independent (C11_resolve_fuel_independent, C11_idef_type_declared, C11_var_type_fuel_sufficient, C11_output_fuel_sufficient); the declared type falls back to Any only when the chain of type references ends in an undefined name (C11_var_type_declared), below that fuel it silently becomes Any (C11_var_type_low_fuel), and the check evaluates the fuel condition for every generated input and output type; the output side is one equation (C11_output_spec, C16 coerced_spec). The check also evaluates spec on every input case. Tied to model-evaluator/src/builders/{item_definition,item_definition_type,mod,decision}.rs by evaluating generated documents (all kinds to depth 3, values conforming and violating at every tree position) through evaluate_invocable; on the output side typed decisions, knowledge models and decision services are evaluated directly and the typed knowledge models and services are also invoked from untyped decisions through boxed invocations (also inside a boxed context) and by FEEL calls, each compared with output_value of the callee\'s declared type.',
     note='Trusted: Coq kernel + vm_compute, hand-written models (correspondence-checked, not verified), harness, FEEL parsing/evaluation of the generated literals and unary tests (sampled, not proved). Fixed: referenced types ignored their own allowed values; the allowed values of a collection were tested on the whole list.')
